@@ -7,19 +7,14 @@ package dtls
 
 import (
 	"context"
-	"crypto/ecdsa"
-	"crypto/ed25519"
-	"crypto/elliptic"
-	"crypto/rand"
 	"crypto/tls"
 	"crypto/x509"
-	"crypto/x509/pkix"
 	"encoding/hex"
 	"encoding/json"
+	"encoding/pem"
 	"errors"
 	"fmt"
 	"io"
-	"math/big"
 	"net"
 	"os"
 	"sync"
@@ -543,10 +538,13 @@ func (l *vLab) other(name string) *vPeer {
 
 type vCreds struct {
 	CA       *x509.Certificate
-	CAKey    *ecdsa.PrivateKey
 	Pool     *x509.CertPool
-	Server   tls.Certificate // CN/SAN "server.verif"
-	Client   tls.Certificate // CN "client.verif"
+	Server   tls.Certificate // CN/SAN "server.verif", under CA
+	Client   tls.Certificate // CN "client.verif", under CA
+	Expired  tls.Certificate // "server.verif" under CA, expired in 2000
+	WrongName tls.Certificate // "wrong.verif" under CA
+	RogueSrv tls.Certificate // "server.verif" under OtherCA (not trusted)
+	RogueCli tls.Certificate // "client.verif" under OtherCA (not trusted)
 	SelfSrv  tls.Certificate // self-signed, not under CA
 	OtherCA  *x509.CertPool
 }
@@ -556,71 +554,49 @@ var (
 	vCredsVal  *vCreds   //nolint:gochecknoglobals
 )
 
-func vMakeCA(cn string) (*x509.Certificate, *ecdsa.PrivateKey) {
-	key, err := ecdsa.GenerateKey(elliptic.P256(), rand.Reader)
-	if err != nil {
-		panic(err)
-	}
-	tmpl := &x509.Certificate{
-		SerialNumber: big.NewInt(1), Subject: pkix.Name{CommonName: cn},
-		NotBefore: time.Unix(0, 0), NotAfter: time.Unix(4102444800, 0),
-		IsCA: true, BasicConstraintsValid: true,
-		KeyUsage: x509.KeyUsageCertSign | x509.KeyUsageDigitalSignature,
-	}
-	der, err := x509.CreateCertificate(rand.Reader, tmpl, tmpl, &key.PublicKey, key)
-	if err != nil {
-		panic(err)
-	}
-	cert, err := x509.ParseCertificate(der)
+func vPemCert(certPEM string) *x509.Certificate {
+	blk, _ := pem.Decode([]byte(certPEM))
+	c, err := x509.ParseCertificate(blk.Bytes)
 	if err != nil {
 		panic(err)
 	}
 
-	return cert, key
+	return c
 }
 
-// Leaf keys are Ed25519 so that every signature in the handshake (ServerKeyExchange,
-// CertificateVerify) has a fixed length: message sizes, fragmentation and datagram packing are
-// then identical from run to run, which the trace comparisons rely on.
-func vMakeLeaf(ca *x509.Certificate, caKey *ecdsa.PrivateKey, cn string, notAfter time.Time) tls.Certificate {
-	pub, key, err := ed25519.GenerateKey(rand.Reader)
+func vKeyPair(certPEM, keyPEM string) tls.Certificate {
+	c, err := tls.X509KeyPair([]byte(certPEM), []byte(keyPEM))
 	if err != nil {
 		panic(err)
 	}
-	tmpl := &x509.Certificate{
-		SerialNumber: big.NewInt(time.Now().UnixNano()&0xffffff + 2), Subject: pkix.Name{CommonName: cn},
-		DNSNames:  []string{cn},
-		NotBefore: time.Unix(0, 0), NotAfter: notAfter,
-		KeyUsage:    x509.KeyUsageDigitalSignature,
-		ExtKeyUsage: []x509.ExtKeyUsage{x509.ExtKeyUsageServerAuth, x509.ExtKeyUsageClientAuth},
-	}
-	der, err := x509.CreateCertificate(rand.Reader, tmpl, ca, pub, caKey)
-	if err != nil {
-		panic(err)
-	}
-	leaf, _ := x509.ParseCertificate(der)
+	c.Leaf = vPemCert(certPEM)
 
-	return tls.Certificate{Certificate: [][]byte{der}, PrivateKey: key, Leaf: leaf}
+	return c
 }
 
+// vGetCreds loads the fixed credentials of zz_verif_lab_creds_test.go (leaf keys are Ed25519 so that
+// every handshake signature has a fixed length; all certificates are constants, so message sizes,
+// fragmentation and datagram packing are identical from run to run and from process to process).
 func vGetCreds() *vCreds {
 	vCredsOnce.Do(func() {
-		ca, key := vMakeCA("verif-ca")
+		ca := vPemCert(vPemCA)
 		pool := x509.NewCertPool()
 		pool.AddCert(ca)
-		oca, _ := vMakeCA("other-ca")
 		opool := x509.NewCertPool()
-		opool.AddCert(oca)
+		opool.AddCert(vPemCert(vPemOtherCA))
 		self, err := selfsign.GenerateSelfSignedWithDNS("server.verif")
 		if err != nil {
 			panic(err)
 		}
-		far := time.Unix(4102444800, 0)
 		vCredsVal = &vCreds{
-			CA: ca, CAKey: key, Pool: pool, OtherCA: opool,
-			Server:  vMakeLeaf(ca, key, "server.verif", far),
-			Client:  vMakeLeaf(ca, key, "client.verif", far),
-			SelfSrv: self,
+			CA: ca, Pool: pool, OtherCA: opool,
+			Server:    vKeyPair(vPemServerCert, vPemServerKey),
+			Client:    vKeyPair(vPemClientCert, vPemClientKey),
+			Expired:   vKeyPair(vPemExpiredServerCert, vPemExpiredServerKey),
+			WrongName: vKeyPair(vPemWrongNameCert, vPemWrongNameKey),
+			RogueSrv:  vKeyPair(vPemRogueServerCert, vPemRogueServerKey),
+			RogueCli:  vKeyPair(vPemRogueClientCert, vPemRogueClientKey),
+			SelfSrv:   self,
 		}
 	})
 
